@@ -33,6 +33,19 @@ def interps(tokens):
     return out
 
 
+class WholeFile:
+    """all free functions and methods of the generator seen as one body: templates and `let`s are looked up wherever they live, so
+    that splitting a function (or merging two) does not move a rule's anchor out of sight"""
+    def __init__(self, ast, rel):
+        self.fns = sorted(ast.file(rel)["_fns"], key=lambda f: f.line)
+        self.events = [e for f in self.fns for e in f.events]
+        self.qual = rel; self.line = 0
+    def macros(self, name=None):
+        return [e for e in self.events if e["k"] == "macro" and (name is None or e["name"] == name or e["name"].endswith("::" + name))]
+    def ev(self, *kinds):
+        return [e for e in self.events if e["k"] in kinds]
+
+
 def run(cx):
     cx.rule("C08.R1", "wire names are the IDL names: every identifier emitted in field or variant position of a serde-derived type is built from the IDL name by the raw-identifier constructor only (no case conversion, no serde rename anywhere in the templates)")
     cx.rule("C08.R2", "optional members are omitted: wherever method-input, reply or error-parameter fields are emitted, an Option-typed IDL member gets skip_serializing_if = \"Option::is_none\" (typedef struct fields have no annotation slot: they serialise as null, which the statement allows)")
@@ -57,13 +70,14 @@ def r1(cx, ast):
         for e in f.events:
             if e["k"] != "method" or e["text"] != "push": continue
             recv = e["recv"].replace(" ", "")
-            if recv not in FIELD_VECS: continue
-            n += 1
-            # the pushed identifier: find its `let` in this function
-            arg = e["args"][0].replace(" ", "")
+            # the pushed identifier: find its `let` in this function; an Ident built from IDL text is a field/variant name
+            arg = e["args"][0].replace(" ", "") if e["args"] else ""
             init = None
             for l in f.events:
                 if l["k"] == "let" and l["pat"].replace(" ", "").split(":")[0] == arg and l["line"] <= e["line"]: init = l["text"]
+            is_ident = init is not None and re.search(r"syn::parse_str|format_ident!|Ident::new", init.replace(" ", "")) is not None
+            if recv not in FIELD_VECS and not (is_ident and re.search(r"(^|[^\w])(\w+\.)?name\b|\belt\b", init)): continue
+            n += 1
             key = "gen:%s:%s.push" % (f.qual, recv)
             site = "%s:%d" % (GEN, e["line"])
             if init is None:
@@ -72,7 +86,7 @@ def r1(cx, ast):
             raw = 'String::from("r#")+' in init.replace(" ", "") or 'format_ident!("r#{}"' in init.replace(" ", "")
             cx.check(raw and not conv, "C08.R1", key, site, "field identifier is built as `%s`: the wire name would differ from the IDL name (%s)" % (init[:90], conv or "not the raw-identifier constructor"),
                      note_ok="r# + IDL name, unchanged")
-    cx.floor("C08.R1", "field/variant identifier emission sites", n, 5)
+    cx.floor("C08.R1", "field/variant identifier emission sites", n, 3)
     ren = []
     for f in ast.file(GEN)["_fns"]:
         for e, txt in quotes(f):
@@ -92,29 +106,29 @@ def r1(cx, ast):
 def r2(cx, ast):
     n = 0
     for f in ast.file(GEN)["_fns"]:
-        pushes = [e for e in f.events if e["k"] == "method" and e["text"] == "push" and e["recv"].replace(" ", "") in ("anot", "args_anot", "in_anot", "out_anot")]
+        pushes = [e for e in f.events if e["k"] == "method" and e["text"] == "push" and (e["recv"].replace(" ", "") in ("anot", "args_anot", "in_anot", "out_anot") or
+                  re.search(r"ano", e["recv"]) or (e["args"] and ("skip_serializing_if" in e["args"][0] or re.match(r"\s*if\s+let\s+VTypeExt\s*::\s*Option", e["args"][0]))))]
         for e in pushes:
             n += 1
             a = e["args"][0].replace(" ", "")
             good = re.match(r'ifletVTypeExt::Option\(_\)=\w+\.vtype\{quote!\(#\[serde\(skip_serializing_if="Option::is_none"\)\]\)\}else\{quote!\(\)\}', a) is not None
             cx.check(good, "C08.R2", "gen:%s:%s" % (f.qual, e["recv"].replace(" ", "")), "%s:%d" % (GEN, e["line"]),
                      "annotation pushed is `%s`: an unset optional member would be written as null/with a value instead of being omitted" % e["args"][0][:100], note_ok="Option(_) -> skip_serializing_if = Option::is_none")
-    cx.floor("C08.R2", "annotation sites (method in/out via generate_anon_struct, error parameters)", n, 2)
+    cx.floor("C08.R2", "annotation sites (method in/out via generate_anon_struct, error parameters)", n, 1)
     # the annotation vectors are interpolated next to their fields
-    f = ast.fn(GEN, "varlink_to_rust")
+    f = WholeFile(ast, GEN)
     txt = " ".join(t for _, t in quotes(f))
-    cx.check("#out_anotpub#out_field_names:#out_field_types" in txt and "#in_anotpub#in_field_names:#in_field_types" in txt, "C08.R2", "gen:varlink_to_rust:annotations-attached", GEN,
+    reps = re.findall(r"pubstruct#(\w+)\{#\(#(\w+)pub#(\w+):#(\w+),\)\*\}", txt)
+    cx.check(len([r for r in reps if re.search(r"out", r[0])]) >= 1 and len([r for r in reps if re.search(r"in_", r[0])]) >= 1, "C08.R2", "gen:varlink_to_rust:annotations-attached", GEN,
              "in/out annotation vectors are not emitted in front of their fields", note_ok="#(#anot pub #name: #type,)*")
-    fe = [x for x in ast.fns(GEN, "to_tokenstream") if "VError" in x.qual]
-    txt = " ".join(t for _, t in quotes(fe[0])) if fe else ""
-    cx.check("#args_anotpub#args_enames:#args_etypes" in txt, "C08.R2", "gen:VError:annotations-attached", GEN, "error parameter annotations are not emitted", note_ok="#(#args_anot pub #args_enames: #args_etypes,)*")
+    cx.check(len([r for r in reps if re.search(r"arg", r[0])]) >= 1, "C08.R2", "gen:VError:annotations-attached", GEN, "error parameter annotations are not emitted (struct templates with an annotation slot: %s)" % [r[0] for r in reps], note_ok="#(#args_anot pub #args_enames: #args_etypes,)*")
     fs = [x for x in ast.fns(GEN, "to_tokenstream") if "VStruct" in x.qual]
     txt = " ".join(t for _, t in quotes(fs[0])) if fs else ""
     cx.note("C08.R2", "gen:VStruct:typedef-fields-null", GEN, "typedef struct fields have no annotation slot (`#(pub #enames: #etypes,)*`): unset optionals are written as null — allowed by the statement (\"omitted or null\")")
 
 
 def r3(cx, ast):
-    f = ast.fn(GEN, "varlink_to_rust")
+    f = WholeFile(ast, GEN)
     lets = {l["pat"].replace(" ", ""): l["text"].replace(" ", "") for l in f.events if l["k"] == "let"}
     cx.check(lets.get("varlink_method_name") == 'format!("{}.{}",idl.name,t.name)', "C08.R3", "gen:varlink_method_name:definition", GEN,
              "varlink_method_name is %s (expected format!(\"{}.{}\", idl.name, t.name))" % lets.get("varlink_method_name"), note_ok="<interface>.<Method>")
@@ -129,14 +143,15 @@ def r3(cx, ast):
     cx.check(okc, "C08.R3", "gen:client-stub-template", GEN, "the client stub does not pass #varlink_method_name and the argument struct to MethodCall::new", note_ok="MethodCall::new(connection, #varlink_method_name, #in_struct_name{..})")
     cx.check(lets.get("iname") == "idl.name" and lets.get("description") == "idl.description", "C08.R3", "gen:name-and-description", GEN,
              "get_name/get_description are %s / %s" % (lets.get("iname"), lets.get("description")), note_ok="iname = idl.name, description = idl.description (the whole input, C11.R3)")
-    last = [t for _, t in quotes(f)][-1]
+    cand = [t for _, t in quotes(f) if "fnget_description(" in t]
+    last = cand[-1] if cand else ""
     cx.check("fnget_description(&self)->&'staticstr{#description}" in last and "fnget_name(&self)->&'staticstr{#iname}" in last
              and re.search(r"#server_method_impls(\w+)=>\{?call\.reply_method_not_found\(String::from\(\1\)\)", last) is not None and re.search(r"match\w+\.method\.as_ref\(\)\{", last) is not None, "C08.R3", "gen:proxy-template", GEN, "the Interface impl template does not return #description/#iname or lacks the MethodNotFound fallback",
              note_ok="get_description -> #description, get_name -> #iname, fallback MethodNotFound(m)")
 
 
 def r4(cx, ast):
-    f = ast.fn(GEN, "generate_error_code")
+    f = WholeFile(ast, GEN)
     lets = {}
     for l in f.events:
         if l["k"] == "let": lets.setdefault(l["pat"].replace(" ", ""), []).append(l["text"].replace(" ", ""))
@@ -200,7 +215,7 @@ def r5(cx, ast, rule="C08.R5"):
 
 
 def r6(cx, ast):
-    f = ast.fn(GEN, "varlink_to_rust")
+    f = WholeFile(ast, GEN)
     tpl = [t for e, t in quotes(f) if "serde_json::from_value(args)" in t]
     ok = len(tpl) == 1 and re.search(r"Err\(\w+\)=>\{.*?call\.reply_invalid_parameter\(.*?\);returnErr\(", tpl[0]) is not None \
          and re.search(r'else\{call\.reply_invalid_parameter\("parameters"\.into\(\)\)\}', tpl[0]) is not None and re.search(r"ifletSome\(\w+\)=\w+\.parameters", tpl[0]) is not None
